@@ -11,6 +11,7 @@
    is received in t + L when the node is not paused in t..t+L (<=, and == if it was never paused before), for
    supplier edges (L = shipment lead time) and for the external supplier (L = order + shipment lead time). *)
 From SV Require Import Sim.Model Sim.Inv_book Sim.Inv_pipe Sim.Inv_run Sim.Main Sim.Example Sim.Single Sim.ShipDelay.
+From SV Require Import Sim2.State2 Sim2.Model2 Sim2.Inv2b_tac Sim2.Inv2b_book Sim2.Inv2b_pipe Sim2.Inv2b_init Sim2.Main2b.
 
 Section C03.
 Variable (NW : net) (inputs : list ((N -> bool) * (N -> Q))).
@@ -81,6 +82,27 @@ Example C03_nonvacuous : good ex_net /\ dem_ok ex_inputs /\
   exists e, In e (run ex_net ex_inputs) /\ 0 < gq e (fBO, 2%N, Nd 3%N) + gq e (fBO, 3%N, Ext) /\ 0 < qsum (gl e (fSP, 3%N, Nd 2%N)) + gq e (fODI, 2%N, Nd 3%N).
 Proof. exact (conj ex_good (conj ex_dem_ok ex_nontrivial)). Qed.
 
+(* ============ MULTI-PRODUCT networks with bills of materials (Stage-2 model; see Props/C01.v for [goodB2b], [sup_edge], [cus_edge]) ===== *)
+Theorem C03_multi_on_order_exact : forall (NW : net2) (inputs : inputs2), goodB2b NW = true -> demB_ok2 inputs ->
+  forall e n p r, In e (run2 NW inputs) -> sup_edge NW n (Nd p) r ->
+  gq2 e (fOO, n, Nd p, r) == qsum (gl2 e (fOP, p, Nd n, r)) + gq2 e (fBO, p, Nd n, r) + gq2 e (fODI, p, Nd n, r) + qsum (gl2 e (fSP, n, Nd p, r)).
+Proof. exact on_order_exact2. Qed.
+Theorem C03_multi_on_order_exact_external : forall (NW : net2) (inputs : inputs2), goodB2b NW = true -> demB_ok2 inputs ->
+  forall e n r, In e (run2 NW inputs) -> sup_edge NW n Ext r -> gq2 e (fOO, n, Ext, r) == qsum (gl2 e (fSP, n, Ext, r)).
+Proof. exact on_order_exact_external2. Qed.
+(* orders placed (+ initial orders) = orders still travelling + orders received by the supplier; nothing is dropped from an order pipeline *)
+Theorem C03_multi_order_ledger : forall (NW : net2) (inputs : inputs2), goodB2b NW = true ->
+  forall e n p r, In e (run2 NW inputs) -> sup_edge NW n (Nd p) r ->
+  gq2 e (fcOQ, n, Nd p, r) + io02 NW n == qsum (gl2 e (fOP, p, Nd n, r)) + gq2 e (fcIO, p, Nd n, r).
+Proof. exact order_ledger2. Qed.
+Theorem C03_multi_nothing_lost : forall (NW : net2) (inputs : inputs2), goodB2b NW = true ->
+  forall e n x k, In e (run2 NW inputs) -> gq2 e (fLOST, n, x, k) == 0.
+Proof. exact nothing_lost2. Qed.
+Theorem C03_multi_pipeline_lengths : forall (NW : net2) (inputs : inputs2), goodB2b NW = true -> forall e, In e (run2 NW inputs) ->
+  (forall n p r, sup_edge NW n p r -> length (gl2 e (fSP, n, p, r)) = (n_olt (cfg2 NW n) + n_slt (cfg2 NW n) + 1)%nat) /\
+  (forall p c k, cus_edge NW p (Nd c) k -> length (gl2 e (fOP, p, Nd c, k)) = (n_olt (cfg2 NW c) + 1)%nat).
+Proof. exact pipeline_lengths2. Qed.
+
 (* a transit pause delays a shipment by one period, a receipt pause holds an external order at the door (two-node network sd_net) *)
 Example C03_shipment_delay_nonvacuous :
   good sd_net /\ dem_ok sd_inputs /\ 0 < gq (sd_rec 2) (fOS, 1%N, Nd 2%N) /\ gq (sd_rec 4) (fIS, 2%N, Nd 1%N) == gq (sd_rec 2) (fOS, 1%N, Nd 2%N) /\
@@ -100,3 +122,8 @@ Print Assumptions C03_shipment_delay.
 Print Assumptions C03_shipment_delay_exact.
 Print Assumptions C03_external_delay.
 Print Assumptions C03_external_delay_exact.
+Print Assumptions C03_multi_on_order_exact.
+Print Assumptions C03_multi_on_order_exact_external.
+Print Assumptions C03_multi_order_ledger.
+Print Assumptions C03_multi_nothing_lost.
+Print Assumptions C03_multi_pipeline_lengths.
